@@ -92,3 +92,14 @@ MUTANTS["C08"] = [
     ("sort-drops-duplicate-rows", "annet/annlib/patching.py", '        self.itms.sort(key=operator.attrgetter("sort_key"))', '        self.itms.sort(key=operator.attrgetter("sort_key"))\n        seen = set()\n        self.itms = [i for i in self.itms if not (i.child is None and (i.row, i.sort_key) in seen) and not seen.add((i.row, i.sort_key))]'),
     ("order_reverse-ignored", "annet/annlib/patching.py", '            elif rule["attrs"]["order_reverse"] and not cmd_direct and direct_matched:', '            elif rule["attrs"]["order_reverse"] and not cmd_direct and direct_matched and False:'),
 ]
+
+MUTANTS["C09"] = [
+    ("cmd_paths-no-repush-parent", "annet/annlib/tabparser.py", "            elif row is BlockEnd:\n                path.pop()\n            else:", "            elif row is BlockEnd:\n                path.pop()\n                path = path[:-1] + path[-1:] if len(path) < 3 else path[:-1]\n            else:"),
+    ("exit-before-children", "annet/annlib/tabparser.py", "            if row is BlockEnd and block_level == level and is_patch:", "            if row is BlockBegin and block_level == level + 1 and is_patch and level >= 2:"),
+    ("level-off-by-one", "annet/deploy.py", "        cmd.level = len(cmd_path) - 1", "        cmd.level = min(len(cmd_path) - 1, 2)"),
+    ("commit-not-suppressed-arista", "annet/annlib/rulebook/common.py", "        if do_commit:\n            after.add_cmd(Command(\"commit\"))\n        else:\n            after.add_cmd(Command(\"abort\"))", "        after.add_cmd(Command(\"commit\"))"),
+    ("deploy-rule-first-depth", "annet/rulebook/deploying.py", "                    if depth == len(cmd_path) - 1:\n                        return rule", "                    if True:\n                        return rule"),
+    ("timeout-default-for-nested", "annet/deploy.py", '            "timeout": rule["attrs"]["timeout"],', '            "timeout": rule["attrs"]["timeout"] if not rule["children"] else 30,'),
+    ("groupby-global", "annet/deploy.py", "    for _k, cmd_before_after in itertools.groupby(cmds_with_apply, key=_key):\n        cmd_before_after = list(cmd_before_after)", "    groups = {}\n    for item in cmds_with_apply:\n        groups.setdefault(_key(item), []).append(item)\n    for _k, cmd_before_after in groups.items():\n        cmd_before_after = list(cmd_before_after)"),
+    ("dont_commit-ignored-in-job", "annet/api/__init__.py", "            device.hw, cmds,\n            do_commit=not self.args.dont_commit\n        )", "            device.hw, cmds,\n        )"),
+]
